@@ -94,6 +94,20 @@ func buildFw(c fwCase) []byte {
 			le32(h[12:], c.Sections)
 		}
 		return img
+	case "guidtable":
+		// units of 2 bytes: image of 2L bytes, footer entry (size 2T) ending 0x20 bytes before the
+		// end, one entry (size 2E) right above the footer when there is room; everything else zero
+		img := make([]byte, 2*c.Size)
+		put := func(end int, size int, guid string) {
+			if end-18 < 0 || end > len(img) {
+				return
+			}
+			binary.LittleEndian.PutUint16(img[end-18:], uint16(size))
+			oabi.PutUUID(img[end-16:end], mustUUID(guid))
+		}
+		put(len(img)-0x20-18, 2*c.Pos, "00f771de-1a7e-4fcb-890e-68c77e2fb44e")
+		put(len(img)-0x20, 2*c.Cut, oabi.FwGUIDTableFooterGUID)
+		return img
 	case "tdxregion":
 		img := fakeovmf.CleanExample(&fx.TB{}, 2*1024*1024)
 		// sections of the example start at 0x100 + 16 (GUID) + 16 (descriptor); entry 4 is the TD_HOB, entry 2 a TempMem
@@ -177,6 +191,8 @@ type parserRow struct {
 	Ln         int    `json:"Ln"`
 	Z          int    `json:"Z"`
 	MeasureAll bool   `json:"measureAll"`
+	T          int    `json:"T"`
+	E          int    `json:"E"`
 }
 
 const mW = 16 // the reduced width of Parsers.tla
@@ -264,7 +280,7 @@ func RunC08(run *vk.Run) {
 			cases = append(cases, c)
 		}
 	}
-	for _, w := range []string{"sevmeta", "tdxmeta", "tdxregion"} {
+	for _, w := range []string{"sevmeta", "tdxmeta", "tdxregion", "guidtable"} {
 		if _, err := vk.RunTLC(vk.TLCOpts{Module: "Parsers", Config: "Neg_Parsers_" + w + ".cfg", Timeout: 5 * time.Minute, ExpectViolation: true}); err != nil {
 			run.Infra(err)
 			return
@@ -291,6 +307,8 @@ func RunC08(run *vk.Run) {
 				fc = embedSev(c.Row)
 			case "tdxmeta":
 				fc = embedTdx(c.Row, mW)
+			case "guidtable":
+				fc = fwCase{Kind: "guidtable", Size: c.Row.L, Cut: c.Row.T, Pos: c.Row.E, Key: "guidtable"}
 			default:
 				fc = fwCase{Kind: "tdxregion", SecType: 3}
 				img := uint64(2 * 1024 * 1024)
@@ -367,7 +385,7 @@ func RunC08(run *vk.Run) {
 	for i, c := range cases {
 		raws[i], _ = json.Marshal(c)
 	}
-	res, err := vk.RunChildCases("fw", raws, 8*time.Second, 4*1024*1024)
+	res, err := vk.RunChildCasesParallel("fw", raws, 8*time.Second, 4*1024*1024, 8)
 	if err != nil {
 		run.Infra(err)
 		return
